@@ -111,6 +111,30 @@ static void exhaustive_ab(int maxLen, const int* entries, int nEntries)
     }
 }
 
+/* repeats at distance exactly one window (65535 +- 2) from the very first byte, for every parser */
+static void window_edge_cases(u8* data)
+{
+    int delta, e; static const int ents[] = {E_DEFAULT, E_HC, E_HC, E_HC, E_HC, E_HC_FAVOR}; static const int params[] = {1, 3, 4, 9, 10, 12};
+    for (delta = -2; delta <= 2; delta++) {
+        size_t d = (size_t)(65536 + delta), l = 40 + rndn(300), n = d + l + 20 + rndn(500), i;
+        for (i = 0; i < n; i++) data[i] = (u8)rnd();
+        memcpy(data + d, data, l);
+        for (e = 0; e < 6; e++) do_case(data, n, ents[e], params[e], LZ4_compressBound((int)n), D_FARMATCH, 1);
+    }
+}
+
+/* long literal runs followed by a match, capacity swept across the tight region (limited-output guards are exact for wildCopy8) */
+static void long_literal_sweep(u8* data, int nL, int thorough)
+{
+    int k;
+    for (k = 0; k < nL; k++) {
+        size_t L = 4000 + rndn(thorough ? 70000 : 12000), R = 40 + rndn(300), n = L + R + 16, i; int cap, entry = (int[]){E_DEFAULT, E_FAST, E_FAST_EXTSTATE, E_FAST_FASTRESET}[rndn(4)];
+        for (i = 0; i < L; i++) data[i] = (u8)rnd();
+        for (i = L; i < n; i++) data[i] = data[i - 7];
+        for (cap = (int)L; cap <= (int)L + (int)L / 255 + 40; cap++) do_case(data, n, entry, 1, cap, D_RANDOM, 1);
+    }
+}
+
 int main(int argc, char** argv)
 {
     const char* mode; int thorough; u64 seed; size_t maxn; u8* data; int i;
@@ -124,6 +148,7 @@ int main(int argc, char** argv)
         static const int ents[] = {E_DEFAULT, E_FAST_FASTRESET, E_HC, E_HC_FAVOR};
         int ncases = thorough ? 40000 : 2500;
         exhaustive_ab(thorough ? 16 : 11, ents, !strcmp(mode, "c06") ? 3 : 4);
+        window_edge_cases(data);
         for (i = 0; i < ncases; i++) {
             int kind = (int)rndn(D_KINDS); size_t n = gen_size(i % 50 == 0 ? maxn : (i % 7 == 0 ? 70000 : 3000));
             int entry, param, cap, bound, e, nrep;
@@ -158,6 +183,7 @@ int main(int argc, char** argv)
             if (cap < 0) cap = 0;
             do_case(data, n, entry, param, cap, kind, 1);
         }
+        long_literal_sweep(data, thorough ? 6000 : 700, thorough);
         /* invalid sizes: negative and above LZ4_MAX_INPUT_SIZE must give 0 without touching memory */
         {   static const int bad[] = {-1, -2, -2147483647 - 1, LZ4_MAX_INPUT_SIZE + 1, 2147483647};
             int b, e; char d[64]; char s[64]; memset(s, 1, sizeof s);
